@@ -70,3 +70,119 @@ def classify_termination_violation(bad, seq, ref, values, N, guard_reassigned):
 
 def classify_refusal(case, refusal_key, message):
     return None
+
+
+K_TYPER_BLIND = "type-inference-ignores-branch-conditions-and-guard"
+
+
+def blind_unbounded_vars(prog, params, inits, rounds=12, cap=25):
+    """Condition-blind value-set analysis (what a typer that ignores guards and branch conditions can know):
+    every assignment in the body is considered executable in every iteration.  Returns the set of variables
+    whose value set exceeds `cap` values or becomes continuous."""
+    import itertools
+    from fractions import Fraction
+    from .lang.ast import walk_stmts, expr_vars, program_variables
+    from .ref.engine import Engine, eval_expr, AP, Unsupported, DomainError, CapExceeded
+    from .ref import laws
+    eng = Engine(prog, params, inits, max_states=5000)
+    try:
+        d0 = eng.initial()
+    except (Unsupported, DomainError, CapExceeded):
+        return None
+    sets = {v: set() for v in eng.vars}
+    bad = set()
+    for st in d0:
+        for v, i in eng.index.items():
+            if isinstance(st[i], AP):
+                bad.add(v)
+            else:
+                sets[v].add(st[i])
+    assigns = []
+    for s in walk_stmts(prog.body):
+        if s[0] == "assign":
+            assigns.append((s[1], s[2]))
+        elif s[0] == "simult":
+            for v, r in zip(s[1], s[2]):
+                assigns.append((v, r))
+
+    def expr_values(e):
+        vs = sorted(expr_vars(e) & set(sets))
+        if any(v in bad for v in vs):
+            return None
+        combos = 1
+        for v in vs:
+            combos *= max(1, len(sets[v]))
+        if combos > 4000:
+            return None
+        out = set()
+        for tup in itertools.product(*[sorted(sets[v]) for v in vs]):
+            env = dict(params)
+            env.update(zip(vs, tup))
+            try:
+                x = eval_expr(e, env)
+            except (Unsupported, DomainError):
+                return None
+            if isinstance(x, AP):
+                return None
+            out.add(x)
+        return out
+
+    for rnd in range(rounds):
+        grew = set()
+        for v, r in assigns:
+            if v in bad:
+                continue
+            new = None
+            if r[0] == "poly":
+                new = expr_values(r[1])
+            elif r[0] == "choice":
+                new = set()
+                for e, _p in r[1]:
+                    x = expr_values(e)
+                    if x is None:
+                        new = None
+                        break
+                    new |= x
+            elif r[0] == "draw" and r[1] in ("Bernoulli", "Categorical", "DiscreteUniform"):
+                try:
+                    ps = [eval_expr(p, dict(params)) for p in r[2]]
+                    new = {x for x, _ in laws.pmf((r[1],) + tuple(ps))}
+                except Exception:
+                    new = None
+            if new is None:
+                bad.add(v)
+                continue
+            if not new <= sets[v]:
+                grew.add(v)
+            sets[v] |= new
+            if len(sets[v]) > cap:
+                bad.add(v)
+        if not grew:
+            break
+    else:
+        # value sets that still grow after the last round have no condition-blind bound
+        bad |= grew
+    return bad
+
+
+def classify_refusal(case, refusal_key, message):
+    """K_TYPER_BLIND: normalization refuses because a condition variable could not be typed, and a condition-blind
+    value analysis (ignoring guards/branch conditions, like Polar's typer) indeed cannot bound one of the variables
+    occurring in conditions although its reachable value set is finite."""
+    from .lang.ast import Program, walk_stmts, cond_vars
+    from .checks.common import frac_dec
+    if not refusal_key.startswith("NormalizingException@"):
+        return None
+    prog = Program.from_json(case["ast"])
+    cvars = set(cond_vars(prog.guard))
+    for blk in (prog.init, prog.body):
+        for s in walk_stmts(blk):
+            if s[0] == "if":
+                for c, _ in s[1]:
+                    cond_vars(c, cvars)
+    bad = blind_unbounded_vars(prog, frac_dec(case["params"]), frac_dec(case["inits"]))
+    if bad is None:
+        return None
+    if cvars & bad:
+        return K_TYPER_BLIND
+    return None
